@@ -38,6 +38,7 @@ from __future__ import annotations
 import ast
 import json
 import os
+import re
 import shutil
 import subprocess
 import sys
@@ -1375,12 +1376,241 @@ def field_literals(rng, n: int) -> list[str]:
     return list(dict.fromkeys(out))
 
 
+# S3b: "the values that safe expressions produce are unaffected" for the interpolation step itself.  The loop model takes the
+# interpolation of a text (the text read as the body of an f-string) from a recorded table, so nothing above says that the
+# table is right.  Here a text is BUILT from literal chunks and fields, so its interpolation is known by construction: every
+# chunk stands for itself ('{{' for '{', '}}' for '}'), every field for the formatted value of a quote-free expression over the
+# bound names.  The chunks are what the way a text is turned into Python source is sensitive to: both quote characters (alone,
+# doubled, tripled, at the very end, right before / after a field), backslashes (alone, doubled, in front of letters that are
+# escapes in Python source, in front of a quote / a brace / the end), escaped braces, '#', non-ASCII text, line ends.
+INTERP_PLAIN = ['seen ', 'x', ' ok', ': ', ' ', 'a', 'é', '#', '%s', '$', ' = ', 'len', '0', ', ', '->', '(', ')', '[', '…', ';']
+INTERP_QUOTES = ['"', '"', "'", "'", '"""', "'''", '""', "''", '"\'', ' "', '" ', " '", "' ", "\\'", '\\"', '\\"""']
+INTERP_BACKSLASH = ['\\', '\\', '\\t', '\\n', '\\\\', '\\x41', '\\u00e9', '\\N', '\\0', '\\a', 'C:\\new\\', '\\r\\n', '\\\\\\', '\\ ',
+                    '\\U0001F600', '\\101', '\\b']
+INTERP_BRACES = ['{{', '}}', '{{', '{{ ', ' }}']
+INTERP_LINES = ['\n', '\n', '\n\n', ' \\\n']
+INTERP_FIELDS = ['a', 'a', 'a', 'a!r', 'a!s', 'a!a', 'a:>4', 'a:<3', 'a:^5', 'a.upper()', 'len(a)', 'len(a) + 1', 'a * 2', 'a[0]', 'max(a)',
+                 'sorted(a)', 'a == a', 'len(a):03d', 'a!r:>6', '[a for a in a]', '(a, a)', 'a if a else 0', 'ord(a)',
+                 'a:{len(a) + 3}', 'a.upper().lower()', 'len(a) * 1.5', 'a:*^{len(a) + 4}', 'abs(-2)']
+INTERP_SUBFIELDS = ['p.k', 'p.v.upper()', 'p.k + a', 'len(p.v):>3', 'p.v!r', '(p.k, p.v)']
+
+
+# fields that contain quotes themselves (the other family keeps them quote-free): the value of `{a.replace('x', 'y')}` must not
+# depend on whether the text around it has a double quote in it
+INTERP_QFIELDS = ["a.replace('x', 'y')", 'a.replace("x", "y")', "a + 'z'", '"-".join([a, a])', "a.strip('x')!r", 'a.center(3, "*")']
+
+
+def interp_text(parts) -> str:
+    return ''.join('{' + x + '}' if k == 'f' else x for k, x in parts)
+
+
+def interp_expected(parts) -> str:
+    """the interpolation of a built text, chunk by chunk (python's own format() for the value of a field)"""
+    import types
+    ns = {'a': 'x', 'p': types.SimpleNamespace(k='k', v='v')}
+    out = []
+    for k, x in parts:
+        if k == 's':
+            out.append(x.replace('{{', '{').replace('}}', '}'))
+            continue
+        src, spec, conv = x, '', ''
+        if ':' in src:
+            src, spec = src.split(':', 1)
+            if spec.startswith('{') or '{' in spec:
+                spec = re.sub(r'\{([^{}]*)\}', lambda m: format(eval(m.group(1), dict(ns))), spec)
+        if '!' in src:
+            src, conv = src.rsplit('!', 1)
+        v = eval(src, dict(ns))
+        v = {'': lambda o: o, 'r': repr, 's': str, 'a': ascii}[conv](v)
+        out.append(format(v, spec))
+    return ''.join(out)
+
+
+def interp_python(text: str):
+    """python's own reading of the text as an f-string body: a raw triple-quoted f-string around the text as it is (nothing
+    is escaped, so fields are read as written; a sentinel keeps the end of the text away from the closing quotes)"""
+    import types
+    for d in ("'''", '"""'):
+        if d not in text:
+            try:
+                return eval('rf' + d + text + '|' + d, {'a': 'x', 'p': types.SimpleNamespace(k='k', v='v')})[:-1]
+            except Exception:
+                return None
+    return None
+
+
+def interp_parts(rng, sub: bool) -> list:
+    """1-6 chunks and fields; the pools a text draws from are chosen per text so that every single feature also occurs alone"""
+    pools = [INTERP_PLAIN]
+    for pool, p in ((INTERP_QUOTES, 0.6), (INTERP_BACKSLASH, 0.45), (INTERP_BRACES, 0.2), (INTERP_LINES, 0.08)):
+        if rng.random() < p:
+            pools.append(pool)
+    fields = INTERP_FIELDS + (INTERP_SUBFIELDS * 2 if sub else [])
+    nfields = rng.choice([0, 1, 1, 1, 2, 2, 3])
+    n = rng.randint(max(1, nfields), 6)
+    kinds = ['f'] * nfields + ['s'] * (n - nfields)
+    rng.shuffle(kinds)
+    parts = []
+    for k in kinds:
+        if k == 'f':
+            parts.append(('f', rng.choice(fields)))
+            continue
+        pool = rng.choice(pools) if rng.random() < 0.75 else pools[-1]
+        c = rng.choice(pool)
+        if parts and parts[-1][0] == 'f' and c.lstrip().startswith('}}'):
+            c = rng.choice(INTERP_PLAIN)        # '}}' right behind a field would close the field first
+        parts.append(('s', c))
+    return parts
+
+
+def interp_cases(rng, n: int):
+    fixed = [[('s', 'seen "'), ('f', 'a'), ('s', '"')], [('s', "seen '"), ('f', 'a'), ('s', "'")], [('f', 'a'), ('s', '\\')],
+             [('s', 'C:\\new\\'), ('f', 'a')], [('f', 'a'), ('s', '\\t'), ('f', 'a')], [('s', '"""'), ('f', 'a'), ('s', '"""')],
+             [('s', "'''"), ('f', 'a!r'), ('s', "'''")], [('s', '\\N'), ('f', 'a')], [('s', '{{'), ('f', 'a'), ('s', ' }}"')],
+             [('s', 'it\'s "'), ('f', 'len(a)'), ('s', '"')], [('s', 'no fields "')], [('s', "x\\'")], [('s', 'a\\')],
+             [('s', '"'), ('f', 'p.k'), ('s', '" = \''), ('f', 'p.v'), ('s', "'")], [('s', 'é\\u00e9 '), ('f', 'a:>4'), ('s', "''")]]
+    out, seen, dropped = [], set(), []
+    for parts in fixed:
+        out.append({'parts': parts, 'sub': any(k == 'f' and 'p.' in x for k, x in parts)})
+    for i in range(max(12, n // 12)):
+        q = INTERP_QFIELDS[i % len(INTERP_QFIELDS)]
+        pre = rng.choice(['', 'seen ', '"', "'", 'it\'s ', 'say "hi" ', '{{', '\\'])
+        post = rng.choice(['', ' ok', '"', "'", '" x', "' x", '}}', '\\'])
+        out.append({'parts': [p for p in (('s', pre), ('f', q), ('s', post)) if p[1]], 'sub': False})
+    tries = 0
+    while len(out) < n and tries < 20 * n:
+        tries += 1
+        sub = rng.random() < 0.3
+        out.append({'parts': interp_parts(rng, sub), 'sub': sub})
+    res = []
+    for c in out:
+        c['text'] = interp_text(c['parts'])
+        if c['text'] in seen or not c['text'].strip() or (c['text'] != c['text'].strip() and rng.random() < 0.9) or \
+                any(l != l.strip() for l in c['text'].split('\n')[1:]):
+            continue        # the loop trims a text first: mostly texts that trimming leaves as they are
+        seen.add(c['text'])
+        c['expected'] = interp_expected(c['parts'])
+        # the construction is cross-checked with python's own reading of the text as an f-string body; a text on which the
+        # two differ (or that python does not read at all) is not used
+        if interp_python(c['text']) != c['expected']:
+            dropped.append(c['text'])
+            continue
+        res.append(c)
+    return res, dropped
+
+
+def interp_features(text: str) -> str:
+    f = []
+    if text.endswith('"'):
+        f.append('dq-end')
+    elif text.endswith("'"):
+        f.append('sq-end')
+    elif text.endswith('\\'):
+        f.append('bs-end')
+    if '"""' in text or "'''" in text:
+        f.append('triple')
+    elif '"' in text and "'" in text:
+        f.append('both-quotes')
+    elif '"' in text:
+        f.append('dq')
+    elif "'" in text:
+        f.append('sq')
+    if '\\' in text:
+        f.append('backslash')
+    if '{{' in text or '}}' in text:
+        f.append('brace-escape')
+    if '\n' in text:
+        f.append('newline')
+    if not text.isascii():
+        f.append('non-ascii')
+    f.append('fields' if re.search(r'(?<!\{)\{(?!\{)', text.replace('{{', '')) else 'plain')
+    return '+'.join(f)
+
+
+def interp_sig(kind: str, parts) -> str:
+    text = interp_text(parts)
+    qf = [x for k, x in parts if k == 'f' and ("'" in x or '"' in x)]
+    if qf:
+        inside = '+'.join(n for ch, n in (("'", 'sq'), ('"', 'dq'), ('\\', 'backslash')) if any(ch in x for x in qf))
+        rest = ''.join(x for k, x in parts if not (k == 'f' and x in qf))
+        outside = '+'.join(n for ch, n in (("'", 'sq'), ('"', 'dq'), ('\\', 'backslash')) if ch in rest) or 'none'
+        return f'oracle:interpolation:{kind}:quoted-field:{inside}-inside:{outside}-outside'
+    return f'oracle:interpolation:{kind}:{interp_features(text)}'
+
+
+def interp_step(rep: dict, text: str, expected: str):
+    """what the recorded interpolation step (the evaluator calls whose argument is not the text itself) did with `text`:
+    None = as expected / not reached, else (kind, detail)"""
+    cur = None
+    reached = accepted = evaluated = False
+    literal = False
+    for kind, arg, res in rep.get('trace', []):
+        if kind == 'trim':
+            if cur == text and reached:
+                break
+            cur = res
+        elif cur != text:
+            continue
+        elif kind == 'lit':
+            reached = True
+            literal = res is not None
+        elif kind == 'safe' and arg != cur:
+            reached = True
+            if not res:
+                return ('rejected', f'is_eval_safe({arg!r}) is False')
+            accepted = True
+        elif kind == 'eval' and arg != cur:
+            evaluated = True
+            if isinstance(res, str) and res.startswith('raises:'):
+                return ('raises', f'safe_eval({arg!r}) {res}')
+            if res != ['str', expected]:
+                return ('value', f'safe_eval({arg!r}) = {res!r}')
+            return None
+    if reached and not literal and not (accepted and evaluated):
+        return ('skipped', 'no interpolation step was made for the text')
+    return None
+
+
+def interp_shrink(parts: list, sub: bool, alert: bool, kind: str, scratch: Path) -> list:
+    """greedy: drop one chunk / field at a time while the interpolation step still goes wrong the same way"""
+    for _ in range(10):
+        cands = [parts[:i] + parts[i + 1:] for i in range(len(parts))]
+        cands += [parts[:i] + [('s', parts[i][1][:-1])] + parts[i + 1:] for i in range(len(parts)) if parts[i][0] == 's' and len(parts[i][1]) > 1]
+        cands += [parts[:i] + [('s', parts[i][1][1:])] + parts[i + 1:] for i in range(len(parts)) if parts[i][0] == 's' and len(parts[i][1]) > 1]
+        cands += [parts[:i] + [('f', 'a')] + parts[i + 1:] for i in range(len(parts)) if parts[i][0] == 'f' and parts[i][1] != 'a']
+        good = []
+        for c in cands:
+            try:
+                t = interp_text(c)
+                if t.strip() and t == t.strip() and interp_python(t) == interp_expected(c):
+                    good.append(c)
+            except Exception:
+                pass
+        if not good:
+            return parts
+        reps = run_child([{'kind': 'parse', 'literal': interp_text(c), 'via': 'patch', 'alert': alert, 'sub': sub} for c in good], scratch)
+        for c, rep in zip(good, reps):
+            st = interp_step(rep, interp_text(c), interp_expected(c))
+            if st and st[0] == kind:
+                parts = c
+                break
+        else:
+            return parts
+    return parts
+
+
 def run_parser(chk: Check, mr: ModelRun, scratch: Path, real_leaks: set):
     rng = chk.rng
     lits = list(LOOP_LITERALS)
     lits += [f"open('/etc/hostname').read()", "eval('1+1')", "exec('x=1')", 'exit()', 'input()', "compile('1','s','eval')",
              "help('keywords')", "delattr(a, 'x')", "quit()", f"max(['/etc/hostname'], key={ESCAPE_BOX}.get('open'))",
              "getattr(a, 'upper')", "__import__('os')", "type(a)", "(a for a in a).gi_frame"]
+    # accepted expressions over bound names that fail WHEN EVALUATED, one per kind of exception evaluation can end with (index
+    # and key lookups, conversions, exhausted iterators, arithmetic, format specs): a semantic failure, never another exception
+    lits += ['a[3]', '{a[3]}', 'seen {a[len(a)]}', '[a][1]', '(a, a)[2]', 'sorted(a)[1]', 'dict(k=a)[a]', '{dict(k=a)[a]}', 'max([])',
+             'int(a)', '{int(a)}', 'next(iter([]))', '{next(iter([]))}', 'a.index(a + a)', '{a:d}', '[][0]', 'len(a) % 0', '{len(a) // 0}',
+             'a + 1', '{a + 1}', 'a.nope', '{a.nope}', 'len()', 'ord(a + a)', 'chr(-1)', '{chr(-1)}', 'range(1)[1]', 'float(a)',
+             '[0 for a in a if a[1]]', '{[a for a in a][1]}', 'divmod(1, 0)', 'pow(0, -1)', 'a * 10 ** 12', 'dict([a])', 'list(a)[1]']
     atoms = ['a', '{a}', 'nope', '{nope}', ' ', 'x', "'", '"', '1', '(', ')', '.upper()', '{', '}', 'abs(-1)', '\n', '+', 'len(a)']
     for _ in range(60 if chk.quick else 3000):
         lits.append(''.join(rng.choice(atoms) for _ in range(rng.randint(1, 4))))
@@ -1427,6 +1657,20 @@ def run_parser(chk: Check, mr: ModelRun, scratch: Path, real_leaks: set):
         elif r < 0.6:
             jobs.append({'kind': 'parse', 'literal': rng.choice(['', ' ', '\n  ']) + l + rng.choice(['', ' ', '\n']), 'via': 'patch',
                          'alert': rng.random() < 0.7, 'sub': True, 'model': True})
+    # S3b: texts whose interpolation is known by construction, as constants and alerts, patched into the model and written in
+    # the grammar
+    import random
+    irng = random.Random(f'S3b:{chk.seed}')      # a stream of its own: the families after this one keep their cases
+    icases, idropped = interp_cases(irng, 170 if chk.quick else 3000)
+    for ci, c in enumerate(icases):
+        t = c['text']
+        r = irng.random()
+        jobs.append({'kind': 'parse', 'literal': t, 'via': 'patch', 'alert': False, 'sub': c['sub'], 'interp': ci})
+        if r < 0.3:
+            jobs.append({'kind': 'parse', 'literal': t, 'via': 'patch', 'alert': True, 'sub': c['sub'], 'interp': ci})
+        if '`' not in t and '\n' not in t and (r > 0.55 or not chk.quick):
+            jobs.append({'kind': 'parse', 'literal': t, 'via': 'text', 'alert': irng.random() < 0.3, 'sub': c['sub'], 'interp': ci,
+                         'level': irng.randint(1, 3)})
     replies = run_child(jobs, scratch)
     n_keys = sum(1 for j, r in zip(jobs, replies) if j.get('keys') and r.get('keys_in_context'))
     n_refdiff = 0
@@ -1612,6 +1856,65 @@ def run_parser(chk: Check, mr: ModelRun, scratch: Path, real_leaks: set):
             else:
                 chk.violation(f'escape:parser:{evn}', f'parsing with the constant {lit!r} fires the audit event {evn!r}',
                               {'oracle': 'S2 parser', 'literal': lit, 'alert': job['alert'], 'event': evn})
+    # ---- S3b: the interpolation step against the interpolation known by construction; a text without braces is its own
+    # interpolation whatever it is made of (every text of every job above that reached the step, every round of the loop)
+    n_built = n_plain = n_ibad = n_shrunk = 0
+    feats = set()
+    for job, rep in zip(jobs, replies):
+        if 'trace' not in rep:
+            continue
+        todo = []
+        if 'interp' in job:
+            c = icases[job['interp']]
+            first = next((res for kind, arg, res in rep['trace'] if kind == 'trim'), None)
+            if first == c['text'] and (job['via'] == 'patch' or rep.get('grammar_literal') == c['text']):
+                todo.append((c['text'], c['expected'], c))
+            else:
+                chk.count('S3b.not_as_written')
+        for kind, arg, res in rep['trace']:
+            if kind == 'trim' and isinstance(res, str) and '{' not in res and '}' not in res and res and all(res != t for t, _, _ in todo):
+                todo.append((res, res, None))
+        for text, expected, c in todo:
+            st = interp_step(rep, text, expected)
+            reached = any(k == 'safe' and a != text for k, a, _ in rep['trace'])
+            if c is not None:
+                n_built += 1
+                for f in interp_features(text).split('+'):
+                    feats.add(f)
+                    chk.count('S3b.feature.' + f)
+                chk.count('S3b.%s.%s' % (job['via'], 'alert' if job['alert'] else 'constant'))
+            elif reached:
+                n_plain += 1
+            if st is None:
+                continue
+            parts = c['parts'] if c is not None else ([('s', ch) for ch in text] if len(text) <= 30 else [('s', text)])
+            sig = interp_sig(st[0], parts)
+            if seen_sig(chk, sig):
+                pass
+            elif n_shrunk < 10:
+                n_shrunk += 1
+                parts = interp_shrink(parts, bool(job.get('sub')), bool(job['alert']), st[0], scratch)
+                sig = interp_sig(st[0], parts)
+            else:
+                sig = f'oracle:interpolation:{st[0]}:not-shrunk'
+            small = interp_text(parts)
+            chk.violation(sig,
+                          f"the {'alert' if job['alert'] else 'constant'} `{job['literal']}` reads the text {text!r} as an f-string body "
+                          f'and gets it wrong: {st[1]}; its interpolation is {expected!r} (smallest text found that goes wrong the same '
+                          f'way: {small!r}, interpolation {interp_expected(parts)!r})',
+                          {'oracle': 'S3b interpolation by construction', 'literal': job['literal'], 'alert': job['alert'],
+                           'via': job['via'], 'text': text, 'expected': expected, 'step': list(st), 'shrunk': small,
+                           'grammar': "start = a:'x' b:`" + small + "` $ ;", 'input': 'x'})
+            if sig in chk.known_hits:
+                chk.count('S3b.known_finding')
+            else:
+                n_ibad += 1
+    need = {'dq-end', 'sq-end', 'bs-end', 'triple', 'both-quotes', 'dq', 'sq', 'backslash', 'brace-escape', 'non-ascii', 'fields', 'plain'}
+    chk.obligation('S3b:the interpolation step yields the interpolation known by construction (chunks with quotes, backslashes, '
+                   'escaped braces around quote-free fields; brace-free texts stand for themselves)', 'oracle',
+                   n_ibad == 0 and n_built >= 180 and n_plain >= 100 and need <= feats and len(idropped) * 20 <= len(icases),
+                   f'{n_ibad} wrong step(s) over {n_built} built texts as written + {n_plain} brace-free texts; features '
+                   f'{sorted(feats)}; {len(idropped)} built texts not used (python reads them differently): {idropped[:3]}')
     chk.obligation('S3:ParseContext.constant vs the extracted loop on recorded oracle tables', 'correspondence',
                    bad == 0 and len(idx) >= len(lits), f'{bad} disagreement(s) over {len(idx)} compared runs')
     chk.obligation('S3:the message an alert records (parseinfo.alerts) = the value of the extracted loop', 'correspondence',
@@ -2278,7 +2581,11 @@ def main():
                 'f-string fields and format specs, under subscripts), on a context with objects that have writable attributes and '
                 'on grammars with a sub-AST, random comprehension targets (name / attribute / subscript / pattern); texts in the '
                 'str.format field syntax (root x chain x conversion x spec, 12 frames) as constants and as alerts of level 1-3, '
-                'alert messages read from parseinfo.alerts. '
+                'alert messages read from parseinfo.alerts; texts built from literal chunks (quotes single / doubled / tripled / at '
+                'the end / next to a field, backslashes before letters, quotes, braces and the end, escaped braces, non-ASCII, line '
+                'ends) and 40 fields (quote-free, over the sub-AST, with quotes inside), whose interpolation is known by '
+                'construction, as constants and alerts, patched and written in the grammar; 35 accepted expressions that fail when '
+                'evaluated (index, key, conversion, iterator, arithmetic, format-spec errors). '
                 'Non-trivial: the expression parses / the loop made at least one oracle call; distinct by content hash.')
     chk.trusted += ['CPython audit events (open, exec, compile, import, builtins.input, os.*, subprocess.*) observed beneath a '
                     "frame of '<string>' code; sys.stdin replaced by a recorder (exit/quit close it)",
@@ -2291,6 +2598,8 @@ def main():
                     'identity and dunder entries of __dict__, function __defaults__/__kwdefaults__/__code__/__name__/...), depth 3; '
                     'alert messages are read from parseinfo.alerts of the result of model.parse(..., parseinfo=True) (S3) and from a '
                     'wrapper around ParseStateStack.alert (S4)',
+                    'S3b: the expected interpolation of a built text is the concatenation of its chunks and of format(value, spec) of its '
+                    'fields, computed by the harness and cross-checked with python reading the text as a raw triple-quoted f-string',
                     'reference evaluation eval(expr, ns, ns) with ns = context + empty __builtins__ (child interpreter, only for '
                     'expressions the checker accepted and that returned a value; reprs compared with addresses masked)',
                     'modelled: safeeval.safe_builtins / _check_safe_eval_cached / check_eval_context, engine.constant loop; the '
